@@ -189,7 +189,7 @@ class Machine:
         r = self.reg_of(obj)
         if r:
             return r
-        if len(self.regs) > self.max_regs:
+        if len(self.regs) > 5000:        # max_regs is the generators' soft limit (room()); results are always stored
             raise RuntimeError('register file full')
         self.regs.append(obj)
         self.kinds.append(self.kind_of(obj))
